@@ -26,7 +26,9 @@ func searchTargetIOTree() searchTarget {
 	keyTag := append(append([]byte{'E'}, []byte("tag")...), h[:]...)
 	return searchTarget{
 		name:  "runtime.IOTree",
-		seeds: [][]byte{keyIn, keyOut, keyTag},
+		// the last four are the regression inputs of the fixed finding
+		// C16:io-tree-short-key-keyformat-decode-panic (they must be skipped, not panic)
+		seeds: [][]byte{keyIn, keyOut, keyTag, []byte("T"), []byte("E"), []byte("Tshort"), append([]byte("E"), make([]byte, 10)...)},
 		fn: func(b []byte) error {
 			src := mkvs.New(nil, nil, node.RootTypeIO)
 			defer src.Close()
